@@ -194,14 +194,55 @@ def rule_PV(ctx, fm, P='C09.PV'):
                              f'{gp[3]}[{un}]': c1, **env}, {}, fm.rel,
                             strict=True)
                 env[t] = lf.lift(st.value)
+    lin = (x - c0) / (c1 - c0)
+    rgot = env.get(rn, 0)
+    # the fraction itself, or the fraction clamped at zero (no extrapolation
+    # below the first point)
+    rform = lin if equal(rgot, lin) else sp.Max(0, lin)
     ok = vals.get(un) in (f'{gp[0]}+1', f'1+{gp[0]}') and \
-        equal(env.get(rn, 0), (x - c0) / (c1 - c0)) and \
-        equal(env.get(en, 0), 1 - (x - c0) / (c1 - c0))
+        (rgot == rform or equal(rgot, rform) or
+         str(rgot) == str(sp.Max(0, lin)) or str(rgot) == str(
+             sp.Max(0.0, lin))) and \
+        (equal(env.get(en, 0), 1 - rform) or
+         equal(env.get(en, 0) - (1 - rgot), 0))
     ctx.check(f'{P}.linear', 'get_index_and_strength: linear weights', ok,
               f'weights are r={env.get(rn)}, e={env.get(en)}, upper '
               f'index {vals.get(un)}; trilinear interpolation needs '
               'r=(x-c[i])/(c[i+1]-c[i]), e=1-r, i+1', ctx.where(fm, g),
               sample={'r': str(env.get(rn)), 'e': str(env.get(en))})
+    # the lower index is clamped to the first interval; a source below the
+    # first centre then has a NEGATIVE linear fraction unless the fraction is
+    # clamped too (the upper end is clamped by the `ic == nc-1` branch): the
+    # weights must stay in [0, 1], else an edge the source does not touch
+    # gets a negative contribution
+    clamp_active = False
+    for a in range(3):
+        d_ = [n for n in psf.body if isinstance(n, ast.Assign) and
+              ast.unparse(n.targets[0]) == axes[a]['lower']]
+        if d_ and isinstance(d_[0].value, ast.Call) and ast.unparse(
+                d_[0].value.func) in ('max', 'np.maximum', 'np.clip'):
+            inner = [x for x in d_[0].value.args
+                     if not isinstance(x, ast.Constant)]
+            lb_in = index_lower_bound(inner[0]) if inner else None
+            clamp_active = clamp_active or (lb_in is not None and lb_in < 0)
+    rdef = [st for st in els if isinstance(st, ast.Assign) and
+            ast.unparse(st.targets[0]) == rn]
+    clamped = bool(rdef) and (
+        has(f'{rn} = max(0.0, __)', rdef[0]) or
+        has(f'{rn} = max(0, __)', rdef[0]) or
+        has(f'{rn} = np.clip(__, 0, __)', rdef[0]) or
+        has(f'{rn} = np.clip(__, 0.0, __)', rdef[0]) or
+        has(f'{rn} = min(max(__, 0.0), 1.0)', rdef[0])) or any(
+        isinstance(n, ast.If) and has(f'{gp[2]} < {gp[3]}[0]', n.test)
+        for n in ast.walk(g)) or any(
+        isinstance(n, ast.If) and has(f'{gp[2]} <= {gp[3]}[0]', n.test)
+        for n in ast.walk(g))
+    ctx.check(f'{P}.linear', 'get_index_and_strength: weights stay in [0, 1] '
+              'below the first centre', clamped or not clamp_active,
+              'the cell index is clamped to 0 for a source below the first '
+              'cell centre, but the linear fraction is not: it becomes '
+              'negative (weights e.g. 1.5 / -0.5), while the upper end is '
+              'clamped', ctx.where(fm, g))
     # component vectors and scaling
     vf = find('_v_ = Field(_g_, dtype=float)', pv)
     ctx.anchor(len(vf) == 1, 'vector field in _point_vector')
